@@ -105,5 +105,5 @@ Emit == st = "done" =>
   LET b == Encode(A)  R == Report(b)  Q == SeqOfSet(QueryRvas(R)) IN
   PrintT(ToJson([plus |-> A.plus, bytes |-> b, expect |-> R, rt |-> (R = Expected(A)) /\ Disjoint(A),
                  queries |-> Tup([k \in 1..Len(Q) |-> Query(R, Q[k])]),
-                 image |-> Image(b), atentry |-> AtAddr(b, R.entry, 16), nfile |-> FileBackedFrom(b, R.entry), align |-> A.align, optpad |-> A.optpad]))
+                 image |-> Image(b), atentry |-> AtAddr(b, R.entry, 16), nfile |-> FileBackedFrom(b, R.entry), asis |-> AsIsImage(b), align |-> A.align, optpad |-> A.optpad]))
 =============================================================================
